@@ -14,7 +14,8 @@
    below), the geometric correctness of ray casting (holes_assigned) and the composition
    build_polygon_recovers. *)
 From Coq Require Import ZArith List Bool Permutation Lia.
-From Verif Require Import Geo.Model Geo.JoinProofs Geo.Conserve Geo.Closes Geo.Cut Geo.Orient Geo.Sources Geo.Holes Geo.Annotate Geo.Edges Geo.Rings Geo.GroupIdx Geo.Recover Geo.Contain Geo.Assign Geo.Truthful Geo.Build Geo.Collect C16.Spec C16.RayQ.
+From Verif Require Import Geo.Model Geo.JoinProofs Geo.Conserve Geo.Closes Geo.Cut Geo.Orient Geo.Sources Geo.Holes Geo.Annotate Geo.Edges Geo.Rings Geo.GroupIdx Geo.Recover Geo.Contain Geo.Assign Geo.Truthful Geo.Build Geo.Collect C16.Spec C16.RayQ Geo.Tables C16.GenOk.
+From VerifGen Require Import GenMputil.
 Import ListNotations.
 Open Scope Z_scope.
 
@@ -318,6 +319,29 @@ Theorem C16_contains_ring_lines : forall o OL h HL, (1 <= length o)%nat -> (1 <=
   polygon_contains OL HL = existsb (point_in_ring (Rings.close_ring o)) h.
 Proof. exact contains_ring_lines. Qed.
 Print Assumptions C16_contains_ring_lines.
+
+(* 9. tie by translation.  gen/GenMputil.v is regenerated from /repo's Go source on every run by
+      translator/cmd/mputil (go/ast): Join's if / else-if chain as a table, the first-half test of
+      the removal, compact's test, MultiSegment.Orientation's term and sign test,
+      MultiSegment.Ring's three tests, polygonContains' crossing condition over exact rationals.
+      Every recognised item equals the model's ([when]: an item the translator did not recognise
+      carries no obligation; the three core items must be recognised). *)
+Theorem C16_tie_join_cases : when gen_join_cases (fun t => t = map case_tuple join_cases).
+Proof. exact genok_join_cases. Qed.
+Theorem C16_join_cases_are_the_model : forall cur first last s,
+  option_map (apply_fit cur s) (match_seg first last s) =
+  option_map (case_apply cur s) (first_case first last s join_cases).
+Proof. exact match_seg_is_table. Qed.
+Theorem C16_tie_orientation_term : when gen_orientation_term (fun g =>
+  forall prev offset pt, g prev offset pt = cross_off offset prev pt).
+Proof. exact genok_orientation_term. Qed.
+Theorem C16_tie_contains_crosses : when gen_contains_crosses (fun g =>
+  forall p vi vj, g (fst p) (snd p) (fst vi) (snd vi) (fst vj) (snd vj) = crosses p vi vj).
+Proof. exact genok_contains_crosses. Qed.
+Theorem C16_tie_core_recognised :
+  gen_join_cases <> None /\ gen_orientation_term <> None /\ gen_contains_crosses <> None.
+Proof. exact genok_core_recognised. Qed.
+Print Assumptions C16_tie_contains_crosses.
 
 (* ------------------------------------------------------------------ non-vacuity *)
 Definition ex_ring : line := [(1,1); (5,1); (5,5); (1,5); (1,1)].
